@@ -368,7 +368,14 @@ func runCase(out *lib.Out, id, store, config string, ops []string) {
 			panic(err)
 		}
 		ran, obs := runOps(storageBackend{st}, ops,
-			func(k string) bool { return lib.KeyStaysInside(parent, base, shard, k) },
+			func(k string) bool {
+				// PATH_MAX (4096) is not in the model: a key whose whole path could reach it is left out
+				// (the kernel then refuses the path before resolving anything; NAME_MAX, 255, IS modelled)
+				if e := lib.EscapeOf(shard)(k); len(base)+len(e)+64 > 4000 || len(base)+len(k)+64 > 4000 {
+					return false
+				}
+				return lib.KeyStaysInside(parent, base, shard, k)
+			},
 			func() string { return lib.ListTree(parent) })
 		out.Case(id, store, shard+",q"+quirks, strings.Join(ran, " "), obs)
 	}
@@ -464,7 +471,7 @@ func (g *gen) shrink(c string) string {
 		return ""
 	case x < 24:
 		return string([]byte{byte(g.rng.Intn(256))})
-	case x < 32:
+	case x < 29:
 		return g.bigContent()
 	}
 	return c
